@@ -28,6 +28,7 @@ Bad(e) ==
          { c \in {"UnitNorm"} : e.unit_units > UnitBound }
          \cup { c \in {"RealEigenvalueForHermitian"} : e.hermitian /\ ~e.eig_real }
          \cup { c \in {"ShapeOfVector"} : ~e.shape_ok }
+         \cup { c \in {"M:EigenvalueIndependentOfReturnVector"} : ~e.novec_same }
     [] OTHER -> {"UnknownEvent"}
 TInit == l = 1 /\ par = <<>> /\ pr = 0 /\ pk = -1 /\ nbad = 0
 TNext ==
